@@ -31,8 +31,8 @@ from concurrent.futures import ThreadPoolExecutor
 from .core import Lock, TRUSTED_COMMON, WORK, VERIF, LEAN, GOENV, sh
 
 MODS = ["MajoranaVerif.Props.C06"]
-DRIVER_MODS = ["MajoranaVerif.Driver.MainC06", "MajoranaVerif.Driver.Util", "MajoranaVerif.Model.Msi", "MajoranaVerif.Model.GoInt"]
-SOURCES = ["Model/Msi.lean", "Proofs/Msi.lean", "Proofs/MsiSnapshot.lean", "Driver/MainC06.lean"]
+DRIVER_MODS = ["MajoranaVerif.Driver.MainC06", "MajoranaVerif.Driver.Util", "MajoranaVerif.Model.Msi", "MajoranaVerif.Model.GoInt", "MajoranaVerif.Model.L3"]
+SOURCES = ["Model/Msi.lean", "Proofs/Msi.lean", "Proofs/MsiSnapshot.lean", "Driver/MainC06.lean", "Model/L3.lean", "Proofs/L3.lean"]
 EXH_SHARDS = 16
 HARNESS = f"{WORK}/bin/harness"   # (a scratch build when the check itself is being tested against mutants)
 MUST_HOLD = ["c06", "c06-rig"] + [f"c06-exh-{i}" for i in range(EXH_SHARDS)]
@@ -202,6 +202,9 @@ class Analysis:
         self.busyflush_runs = 0
         self.aux = Counter()
         self.tie_diff = []       # (stream, line number, in, go, lean)
+        self.l3_tie = []         # MVP-8: Go's l3stale vs Lean's Model.L3.cleanB on the exported L3 differ: (stream, line number, in, go, lean)
+        self.l3_bad = []         # MVP-8, must-hold streams: Model.L3.Clean fails on a real snapshot / run: (stream, line number, run, cycle, go, lean)
+        self.l3_judged = 0
         self.ref_fail = []       # (stream, line number, run info, why)
         self.hard = []           # violating snapshots: dict(stream, case, run, cycle, line, go, lean, clause)
         self.unclassified = []   # flush streams: violating snapshots of runs whose refinement replay was lost before
@@ -241,6 +244,8 @@ def analyse(an, stream, ins, go, lean, must_hold, complete_lean=True):
             for k in ("l3stale", "lockacct"):
                 if int(kv.get(k, "0")) > 0:
                     an.aux[k + "_runs"] += 1
+            if must_hold and int(kv.get("l3stale", "0")) > 0 and run and str(run.get("variant", "")).startswith("mvp8"):
+                an.l3_bad.append((stream, i + 1, run, None, f"l3stale={kv.get('l3stale')} snapshots of the run", "-"))
             mm = re.search(r"busyflush=(\d+)", m)
             if mm and int(mm.group(1)) > 0:
                 an.busyflush_runs += 1
@@ -263,6 +268,15 @@ def analyse(an, stream, ins, go, lean, must_hold, complete_lean=True):
         lv = lean_verdict(m)
         if lv != g:
             an.tie_diff.append((stream, i + 1, l[:300], g, m))
+        gm = re.search(r" l3v=(\w+)", l) if tag == "S " else None
+        if gm and m != "?":
+            lm = re.search(r" l3clean=(\w+)", m)
+            lc = lm.group(1) if lm else "missing"
+            an.l3_judged += 1
+            if (gm.group(1) == "stale") != (lc == "stale") or lc == "missing":
+                an.l3_tie.append((stream, i + 1, l[:200], gm.group(1), lc))
+            if must_hold and (gm.group(1) != "ok" or lc != "ok"):
+                an.l3_bad.append((stream, i + 1, run, cyc, gm.group(1), lc))
         rm = re.search(r"ref=(\S+)", m)
         ref = rm.group(1) if rm else ("pm" if tag == "P " else "none")
         an.ref[ref.split(":")[0] + (":" + ref.split(":")[1] if ref.startswith(("fail", "skip")) and ":" in ref else "")] += 1
@@ -570,6 +584,7 @@ def run(ck):
             "violating_snapshots_by_clause (flush streams included)": dict(an.clauses),
             "excused_by_flush_finding": an.excused, "runs_with_busy_flush": an.busyflush_runs,
             "aux_observations (not clauses of C06)": dict(an.aux), "witnesses_reproduce_on": witnesses,
+            "mvp8_snapshots_judged_by_Model.L3.cleanB (Go l3stale vs Lean, must agree and must hold)": an.l3_judged,
             "stream_seconds": round(time.time() - t_streams, 1)}
         ck.cov["exhaustive_note"] = ("rig, every assignment of <= k requests (read|write × line × start offset) to 2 and 3 cores on line sets {0},{0,64},{0,128 (MVP-8)}, "
                                 "modulo line/time-shift symmetry: quick k=3 (≈ 4·10^4 runs), thorough k=4 (≈ 9.6·10^5 runs), offsets {0,2,310,313}; "
@@ -587,6 +602,15 @@ def run(ck):
         if an.tie_diff:
             s, i, l, g, m = an.tie_diff[0]
             ck.broken.append(f"tie (Go evaluation vs Lean MsiInv) differs on {len(an.tie_diff)} lines; first: stream {s} line {i}: go={g!r} lean={m!r} in={l!r}")
+        if an.l3_tie:
+            s, i, l, gv, lc = an.l3_tie[0]
+            ck.broken.append(f"tie (Go l3stale vs Lean Model.L3.cleanB on the exported L3 of MVP-8) differs on {len(an.l3_tie)} snapshots; first: stream {s} line {i}: go={gv} lean={lc} in={l!r}")
+        if an.l3_bad:
+            s, i, run, cyc, gv, lc = an.l3_bad[0]
+            ck.broken.append(f"correspondence (Model.L3.Clean on real snapshots) fails on {len(an.l3_bad)} snapshots/runs of the must-hold streams: on MVP-8 a resident L3 line "
+                             f"that is not flagged in msi.l3Write differs from memory (`stale`), or a flag sits on an unaligned / non-resident address (`keys`) — the invariant of "
+                             f"Model.L3 (Props.C06.l3_all_histories) does not describe the code; first: stream {s} line {i} variant={run['variant'] if run else '?'} "
+                             f"cores={run['cores'] if run else '?'} cycle={cyc} go={gv} lean={lc}")
         if an.ref_fail:
             s, i, run, why, ins_line = an.ref_fail[0]
             report_ref(ck, drv, s, i, run, run["case"] if run else None, why, ins_line)
